@@ -69,13 +69,19 @@ def _native_calls(prog, wd, cs):
     """value printed by every call of main under gcc and clang (UBSan in recover mode); None for a call during
     which the sanitizer reported something, or on which the two compilers disagree"""
     src = os.path.join(wd, "native.c")
-    lines = prog.replace("void out(long);", "#include <stdio.h>\nstatic void out(long v) { printf(\"out %lu\\n\", (unsigned long)v); fflush(stdout); }")
+    lines = prog.replace("void out(long);", "#include <stdio.h>\n#include <setjmp.h>\n#include <signal.h>\n"
+                         "static void out(long v) { printf(\"out %lu\\n\", (unsigned long)v); fflush(stdout); }\n"
+                         "static sigjmp_buf jb;\nstatic void onsig(int s) { (void)s; siglongjmp(jb, 1); }")
     q = [0]
 
     def mark(m):
+        # a call whose undefined operation traps natively (e.g. `% 0` reached through an undefined constant shift that
+        # the sanitizer only reports) must not take the other calls down: it counts as `runtime error`
         q[0] += 1
-        return "\tfprintf(stderr, \"@%d\\n\");%s" % (q[0] - 1, m.group(0))
-    lines = re.sub(r"\tout\(\(long\)", mark, lines)
+        return ("\tfprintf(stderr, \"@%d\\n\"); if (!sigsetjmp(jb, 1)) out((long)%s); "
+                "else { fprintf(stderr, \"runtime error: signal\\n\"); out(0); }" % (q[0] - 1, m.group(1)))
+    lines = re.sub(r"\tout\(\(long\)(.*)\);", mark, lines)
+    lines = lines.replace("int main(void) {", "int main(void) {\n\tsignal(SIGFPE, onsig);", 1)
     open(src, "w").write(lines)
     # undefined operations inside CONSTANT subexpressions are folded by the compilers at translation time and never reach
     # the sanitizer; gcc's diagnostics name them (every generated function sits on one line of its own)
